@@ -167,4 +167,247 @@ theorem Builder.addAll_spec (hash : List Prefix → Nat) (sets : List (List Pref
       simp only [List.getElem_cons_succ]
       exact hall k (by simpa using hi) (by simpa using hj)
 
+theorem Builder.addOp_spec (hash : List Prefix → Nat) (b : Builder) (op : SetOp) (hinv : b.Inv) :
+    (b.addOp hash op).1.Inv ∧
+    (∃ ext, (b.addOp hash op).1.tries = b.tries ++ ext) ∧
+    (b.addOp hash op).1.tries[(b.addOp hash op).2]? = some op.slotValues := by
+  cases op with
+  | ip raw => exact Builder.addSet_spec hash b raw hinv
+  | mac macs neg =>
+    simp only [Builder.addOp]
+    refine ⟨?_, ⟨[_], rfl⟩, by simp⟩
+    intro h e he
+    have := hinv h e he
+    simp only
+    rw [List.getElem?_append_left]
+    · exact this
+    · exact (List.getElem?_eq_some_iff.mp this).1
+
+theorem Builder.addOps_spec (hash : List Prefix → Nat) (ops : List SetOp) :
+    ∀ (b : Builder), b.Inv →
+      (Builder.addOps hash b ops).2.length = ops.length ∧
+      (∃ ext, (Builder.addOps hash b ops).1.tries = b.tries ++ ext) ∧
+      ∀ i (hi : i < ops.length) (hj : i < (Builder.addOps hash b ops).2.length),
+        (Builder.addOps hash b ops).1.tries[(Builder.addOps hash b ops).2[i]]? =
+          some (ops[i]).slotValues ∧ (Builder.addOps hash b ops).1.Inv := by
+  induction ops with
+  | nil =>
+    intro b hb
+    refine ⟨rfl, ⟨[], by simp [Builder.addOps]⟩, ?_⟩
+    intro i hi; simp at hi
+  | cons s ss ih =>
+    intro b hb
+    obtain ⟨hinv1, ⟨ext1, hext1⟩, hidx1⟩ := Builder.addOp_spec hash b s hb
+    obtain ⟨hlen, ⟨ext2, hext2⟩, hall⟩ := ih (b.addOp hash s).1 hinv1
+    have unfold_eq : Builder.addOps hash b (s :: ss) =
+        ((Builder.addOps hash (b.addOp hash s).1 ss).1,
+          (b.addOp hash s).2 :: (Builder.addOps hash (b.addOp hash s).1 ss).2) := rfl
+    rw [unfold_eq]
+    refine ⟨by simp [hlen], ⟨ext1 ++ ext2, by simp [hext2, hext1]⟩, ?_⟩
+    intro i hi hj
+    cases i with
+    | zero =>
+      simp only [List.getElem_cons_zero]
+      constructor
+      · rw [hext2]
+        rw [List.getElem?_append_left]
+        · exact hidx1
+        · exact (List.getElem?_eq_some_iff.mp hidx1).1
+      · cases ss with
+        | nil => simpa [Builder.addOps] using hinv1
+        | cons s' ss' => exact (hall 0 (by simp) (by simp [hlen])).2
+    | succ k =>
+      simp only [List.getElem_cons_succ]
+      exact hall k (by simpa using hi) (by simpa using hj)
+
+/-! ### the order used by `canonicalizePrefixes` is a total order on well-formed prefixes -/
+
+theorem prefixLe_total (a b : Prefix) : prefixLe a b = true ∨ prefixLe b a = true := by
+  unfold prefixLe
+  by_cases h1 : a.bits = b.bits
+  · by_cases h2 : a.is4 = b.is4
+    · simp [h1, h2]; omega
+    · cases ha : a.is4 <;> cases hb : b.is4 <;> simp_all
+  · simp [h1, Ne.symm h1]; omega
+
+theorem prefixLe_antisymm (a b : Prefix) (h1 : prefixLe a b = true) (h2 : prefixLe b a = true) : a = b := by
+  unfold prefixLe at h1 h2
+  by_cases hb : a.bits = b.bits
+  · by_cases h4 : a.is4 = b.is4
+    · simp [hb, h4] at h1 h2
+      have : a.addr = b.addr := by omega
+      cases a; cases b; simp_all
+    · cases ha : a.is4 <;> cases hb4 : b.is4 <;> simp_all
+  · simp [hb, Ne.symm hb] at h1 h2; omega
+
+theorem prefixLe_trans (a b c : Prefix) (h1 : prefixLe a b = true) (h2 : prefixLe b c = true) :
+    prefixLe a c = true := by
+  unfold prefixLe at *
+  by_cases hab : a.bits = b.bits <;> by_cases hbc : b.bits = c.bits
+  · by_cases h4 : a.is4 = b.is4 <;> by_cases h5 : b.is4 = c.is4
+    · simp [hab, hbc, h4, h5] at *; omega
+    · cases ha : a.is4 <;> cases hb4 : b.is4 <;> cases hc : c.is4 <;> simp_all
+    · cases ha : a.is4 <;> cases hb4 : b.is4 <;> cases hc : c.is4 <;> simp_all
+    · cases ha : a.is4 <;> cases hb4 : b.is4 <;> cases hc : c.is4 <;> simp_all
+  · have : a.bits ≠ c.bits := by omega
+    simp [hab, hbc, this] at *
+    omega
+  · have : a.bits ≠ c.bits := by omega
+    simp [hab, hbc, this] at *
+    omega
+  · simp [hab, hbc] at h1 h2
+    have : a.bits ≠ c.bits := by omega
+    simp [this]; omega
+
+/-- strictly sorted by `prefixLe` (sorted and without repetitions) -/
+def StrictSorted : List Prefix → Prop
+  | [] => True
+  | [_] => True
+  | a :: b :: rest => prefixLe a b = true ∧ a ≠ b ∧ StrictSorted (b :: rest)
+
+def Sorted : List Prefix → Prop
+  | [] => True
+  | [_] => True
+  | a :: b :: rest => prefixLe a b = true ∧ Sorted (b :: rest)
+
+theorem sorted_insertSorted (x : Prefix) (l : List Prefix) (h : Sorted l) : Sorted (insertSorted x l) := by
+  induction l with
+  | nil => trivial
+  | cons y ys ih =>
+    unfold insertSorted
+    split
+    · rename_i hxy; exact ⟨hxy, h⟩
+    · rename_i hxy
+      have hyx : prefixLe y x = true := by
+        rcases prefixLe_total x y with h' | h'
+        · exact absurd h' hxy
+        · exact h'
+      cases ys with
+      | nil => exact ⟨hyx, trivial⟩
+      | cons z zs =>
+        have hz : Sorted (z :: zs) := h.2
+        have := ih hz
+        unfold insertSorted at this ⊢
+        split
+        · rename_i hxz
+          simp only [hxz, if_true] at this
+          exact ⟨hyx, this⟩
+        · rename_i hxz
+          simp only [hxz] at this
+          exact ⟨h.1, this⟩
+
+theorem sorted_sortPrefixes (l : List Prefix) : Sorted (sortPrefixes l) := by
+  induction l with
+  | nil => trivial
+  | cons x xs ih => exact sorted_insertSorted x _ ih
+
+theorem sorted_head_le (a : Prefix) (l : List Prefix) (h : Sorted (a :: l)) : ∀ y ∈ l, prefixLe a y = true := by
+  induction l generalizing a with
+  | nil => intro y hy; simp at hy
+  | cons b rest ih =>
+    intro y hy
+    simp only [List.mem_cons] at hy
+    rcases hy with rfl | hy
+    · exact h.1
+    · exact prefixLe_trans a b y h.1 (ih b h.2 y hy)
+
+theorem dedupAdj_head (b : Prefix) (rest : List Prefix) : ∃ t, dedupAdj (b :: rest) = b :: t := by
+  induction rest generalizing b with
+  | nil => exact ⟨[], rfl⟩
+  | cons c r ihr =>
+    unfold dedupAdj
+    split
+    · rename_i hbc; subst hbc; exact ihr b
+    · exact ⟨_, rfl⟩
+
+theorem strictSorted_dedupAdj (l : List Prefix) (h : Sorted l) : StrictSorted (dedupAdj l) := by
+  induction l with
+  | nil => trivial
+  | cons a rest ih =>
+    cases rest with
+    | nil => trivial
+    | cons b rest' =>
+      have hs : Sorted (b :: rest') := h.2
+      have ihb := ih hs
+      unfold dedupAdj
+      split
+      · exact ihb
+      · rename_i hne
+        have hd := dedupAdj_head b rest'
+        obtain ⟨t, ht⟩ := hd
+        rw [ht] at ihb ⊢
+        exact ⟨h.1, hne, ihb⟩
+
+theorem strictSorted_tail (a : Prefix) (l : List Prefix) (h : StrictSorted (a :: l)) : StrictSorted l := by
+  cases l with
+  | nil => trivial
+  | cons b r => exact h.2.2
+
+theorem strictSorted_head_lt (a : Prefix) (l : List Prefix) (h : StrictSorted (a :: l)) :
+    ∀ y ∈ l, prefixLe a y = true ∧ a ≠ y := by
+  induction l generalizing a with
+  | nil => intro y hy; simp at hy
+  | cons b rest ih =>
+    intro y hy
+    simp only [List.mem_cons] at hy
+    rcases hy with rfl | hy
+    · exact ⟨h.1, h.2.1⟩
+    · obtain ⟨hby, hne⟩ := ih b h.2.2 y hy
+      refine ⟨prefixLe_trans a b y h.1 hby, ?_⟩
+      intro hay
+      subst hay
+      exact h.2.1 (prefixLe_antisymm a b h.1 hby)
+
+/-- A strictly sorted list is determined by its members. -/
+theorem strictSorted_ext : ∀ (xs ys : List Prefix), StrictSorted xs → StrictSorted ys →
+    (∀ p, p ∈ xs ↔ p ∈ ys) → xs = ys := by
+  intro xs
+  induction xs with
+  | nil =>
+    intro ys _ _ hm
+    cases ys with
+    | nil => rfl
+    | cons b r => exact absurd ((hm b).mpr List.mem_cons_self) (by simp)
+  | cons a xs' ih =>
+    intro ys hx hy hm
+    cases ys with
+    | nil => exact absurd ((hm a).mp List.mem_cons_self) (by simp)
+    | cons b ys' =>
+      have hab : a = b := by
+        by_cases hab : a = b
+        · exact hab
+        · have h1 : a ∈ ys' := by
+            have := (hm a).mp List.mem_cons_self
+            simp only [List.mem_cons] at this
+            rcases this with h | h
+            · exact absurd h hab
+            · exact h
+          have h2 : b ∈ xs' := by
+            have := (hm b).mpr List.mem_cons_self
+            simp only [List.mem_cons] at this
+            rcases this with h | h
+            · exact absurd h.symm hab
+            · exact h
+          exact prefixLe_antisymm a b (strictSorted_head_lt a xs' hx b h2).1 (strictSorted_head_lt b ys' hy a h1).1
+      subst hab
+      congr 1
+      apply ih ys' (strictSorted_tail a xs' hx) (strictSorted_tail a ys' hy)
+      intro p
+      constructor
+      · intro hp
+        have := (hm p).mp (List.mem_cons_of_mem _ hp)
+        simp only [List.mem_cons] at this
+        rcases this with h | h
+        · subst h; exact absurd rfl (strictSorted_head_lt p xs' hx p hp).2
+        · exact h
+      · intro hp
+        have := (hm p).mpr (List.mem_cons_of_mem _ hp)
+        simp only [List.mem_cons] at this
+        rcases this with h | h
+        · subst h; exact absurd rfl (strictSorted_head_lt p ys' hy p hp).2
+        · exact h
+
+theorem strictSorted_canonicalize (l : List Prefix) : StrictSorted (canonicalize l) :=
+  strictSorted_dedupAdj _ (sorted_sortPrefixes l)
+
 end DaeVerif.C12
